@@ -160,7 +160,7 @@ def _sites(repo):
     src = open(os.path.join(repo, 'pysmi/codegen/templates/pysnmp/mib-definitions.j2')).read()
     keys = ('description', 'reference', 'units', 'displayhint', 'organization', 'contactinfo', 'productrelease')
     sites = []
-    for mm in re.finditer(r"\{\{\s*definition\['(\w+)'\]\s*((?:\|\s*\w+\s*)*)\}\}", src):
+    for mm in re.finditer(r"\{\{\s*definition\['(\w+)'\]\s*((?:\|\s*\w+\s*(?:\([^)]*\))?\s*)*)\}\}", src):
         key = mm.group(1)
         if key not in keys:
             continue
@@ -215,11 +215,20 @@ def solver_obligations(prop, tier, ctx):
     def none_of(chars):
         u = z3.Union(*[z3.Re(z3.StringVal(c)) for c in chars]) if len(chars) > 1 else z3.Re(z3.StringVal(chars[0]))
         return z3.Star(z3.Intersect(any_, z3.Complement(u)))
-    safe = {'oneline': none_of(['\\', '\n', '\r']), 'block': none_of(['\\'])}
+    everything = z3.Star(any_)
+
+    def safe_language(kind, filters):
+        """texts the paste site reproduces: the `pystr` filter escapes backslashes (and, as pystr(True), line breaks)"""
+        esc = [f for f in filters if f.startswith('pystr')]
+        if esc and kind == 'block':
+            return everything
+        if esc and kind == 'oneline':
+            return everything if 'True' in esc[0] else none_of(['\n', '\r'])
+        return {'oneline': none_of(['\\', '\n', '\r']), 'block': none_of(['\\'])}[kind]
     sites = _sites(ctx['repo'])
     # only keys with an executed-replay driver are claimed (OBJECT-TYPE description/reference/units);
     # organization/contactinfo/displayhint/productrelease sites are listed as outside the claim
-    kinds = sorted(set((s['kind'], s['key']) for s in sites if s['key'] in SITE_GETTER))
+    kinds = sorted(set((s['kind'], s['key'], tuple(s['filters'])) for s in sites if s['key'] in SITE_GETTER))
     known = set()
     import json as _json, os
     try:
@@ -229,7 +238,7 @@ def solver_obligations(prop, tier, ctx):
                 known.add('backslash')
     except Exception:
         pass
-    for kind, key in kinds:
+    for kind, key, filters in kinds:
         name = 'C15.pysnmp.site.%s.%s' % (kind, key)
         rec = dict(cond=name, fn='templates/pysnmp/mib-definitions.j2 + t_QUOTED_STRING', paths=0, queries=0,
                    bounds='unbounded: every text the QUOTED_STRING rule accepts vs the safe language of a %s paste site' % kind)
@@ -241,8 +250,7 @@ def solver_obligations(prop, tier, ctx):
         #    inside "..." / """...""" given that the text cannot contain a double quote  -> language inclusion
         v1, m1, dt1, _ = smt.check([in_lang, z3.Contains(t, q)])
         # 2. is there a text outside the safe language at all?
-        v2, m2, dt2, _ = smt.check([in_lang, z3.Not(z3.InRe(t, safe[kind])), z3.Length(t) <= 3,
-                                    z3.Not(z3.Contains(t, z3.StringVal('\n'))), z3.Not(z3.Contains(t, z3.StringVal('\r')))])
+        v2, m2, dt2, _ = smt.check([in_lang, z3.Not(z3.InRe(t, safe_language(kind, filters))), z3.Length(t) <= 3])
         rec.update(queries=2, solver_cpu_s=round(dt1 + dt2, 3), verdict='%s/%s' % (v1, v2))
         if v1 != 'unsat':
             rec.update(status='inconclusive', reason='cannot show that accepted texts never contain a double quote (%s)' % v1)
